@@ -59,7 +59,8 @@ fn block(cfg: GenCfg) -> BoxedStrategy<Vec<Stmt>> {
             (4, (0u16..100).prop_map(Stmt::Emit).boxed()),
             (4, Just(Stmt::Await).boxed()),
             (1, Just(Stmt::Note).boxed()),
-            (1, (1u8..3).prop_map(Stmt::Yield).boxed()),
+            // (scale: a task that is polled some two hundred times in one go - counters of polls, budgets, "cooperative yields")
+            (1, if cfg.scale { prop_oneof![24 => 1u8..3, 1 => 100u8..250].prop_map(Stmt::Yield).boxed() } else { (1u8..3).prop_map(Stmt::Yield).boxed() }),
             (1, Just(Stmt::AwaitChain).boxed()),
             (1, if cfg.scale { prop_oneof![30 => 2u16..9, 1 => 1020u16..1300].prop_map(Stmt::Burst).boxed() } else { (2u16..9).prop_map(Stmt::Burst).boxed() }),
         ];
